@@ -470,6 +470,32 @@ int32 matrixSslDecodeTls13(ssl_t *ssl,
     }
     else if (innerType == SSL_RECORD_TYPE_APPLICATION_DATA)
     {
+        if (MATRIX_IS_SERVER(ssl) && !DECRYPTING_RECORDS(ssl) &&
+                ssl->tls13IncorrectDheKeyShare == PS_TRUE &&
+                ssl->extFlags.got_early_data == 1)
+        {
+            /* We answered a ClientHello that offered early data with a
+               HelloRetryRequest: the early data the client had already
+               sent arrives before its second ClientHello and has to be
+               skipped, up to the configured amount (RFC 8446, 4.2.10). */
+            /* Counted as in the decrypt-failure case above: without content
+               type and tag (every TLS 1.3 suite has a 16-byte tag). */
+            if (ssl->rec.len > TLS_GCM_TAG_LEN + 1)
+            {
+                ssl->tls13ReceivedEarlyDataLen +=
+                    ssl->rec.len - TLS_GCM_TAG_LEN - 1;
+            }
+            psTraceIntInfo("Ignored %d bytes of early_data after HelloRetryRequest\n",
+                    (int) ssl->rec.len);
+            ssl->tls13EarlyDataStatus = MATRIXSSL_EARLY_DATA_REJECTED;
+            if (ssl->tls13ReceivedEarlyDataLen > ssl->tls13SessionMaxEarlyData)
+            {
+                ssl->err = SSL_ALERT_UNEXPECTED_MESSAGE;
+                goto encodeResponse;
+            }
+            *in = pb.buf.start;
+            return MATRIXSSL_SUCCESS;
+        }
         /* Application data is only acceptable from a protected record and
            only once the handshake is complete, or as early data that the
            server is prepared to accept (RFC 8446, 2.3 and 4.2.10). */
